@@ -7,7 +7,7 @@ d=/verif/seeded/$name
 cd /verif
 git -C /repo diff --quiet || { echo "/repo is dirty"; exit 2; }
 git -C /repo apply $d/patch.diff || { echo "PATCH DOES NOT APPLY"; exit 2; }
-trap 'git -C /repo checkout -- .' EXIT
+trap 'git -C /repo checkout -- .; git -C /verif checkout -- evidence; rm -f /verif/replays/*.json' EXIT
 results=""
 for id in "$@"; do
   ./check $id $tier > /tmp/xc-$$.log 2>&1; rc=$?
